@@ -11,7 +11,7 @@ from .decutil import fail, parse
 # ---- DecayMode <-> dict, symbolic bf and metadata ---------------------------------------------------------------------
 FS_PATTERNS = [{}, {"K+": 1}, {"K+": 1, "K-": 2}, {"pi0": 3}, {"gamma": 2, "anti-nu_tau": 1, "K_1(1270)+": 1}, {"a": 1, "B": 1, "A": 1, "b": 3},
                {"pi+": 2, "pi-": 2, "pi0": 1, "Upsilon(4S)": 1}]
-META_SHAPES = 4
+META_SHAPES = 5
 N_MODE = len(FS_PATTERNS) * META_SHAPES
 
 
@@ -19,7 +19,8 @@ def body_mode(sel: int, bf: float, mi: int, ms: str) -> bool:
     fs = FS_PATTERNS[sel % len(FS_PATTERNS)]
     shape = sel // len(FS_PATTERNS)
     info = [{}, {"model": "PHSP"}, {"model": "HELAMP", "model_params": [mi, 1.5, ms], "study": ms, "year": mi},
-            {"zfit": {"B0": ms, "n": [mi, mi]}, "model_params": [mi]}][shape]
+            {"zfit": {"B0": ms, "n": [mi, mi]}, "model_params": [mi]},
+            {"reviewed_by": None, "note": ms, "flags": {"checked": None, "n": mi}}][shape]      # None (JSON null) is a value like any other
     dm = DecayMode(bf, dict(fs), **info)
     d = dm.to_dict()
     exp_fs = sorted(n for n, c in fs.items() for _ in range(c))
@@ -205,6 +206,14 @@ def body_ctor(sel: int) -> bool:
         for n in st:
             counts[n] = counts.get(n, 0) + 1
         a, b, c = DaughtersDict(" ".join(lst)), DaughtersDict(lst), DaughtersDict(dict(counts))
+        # a string as read from a file: blanks, tabs or a line end around and between the names do not add or remove particles
+        pad = [(" ", " ", " "), ("", "  ", "\n"), ("\t", "\t", ""), ("  ", " \t ", " \r\n")][pv % 4]
+        padded = DaughtersDict(pad[0] + pad[1].join(lst) + pad[2]) if lst else DaughtersDict(pad[0] + pad[2])
+        if dict(padded.items()) != counts or len(padded) != len(st) or padded.to_list() != sorted(st):
+            return fail(f"DaughtersDict from the padded string {pad[0] + pad[1].join(lst) + pad[2]!r}: {dict(padded.items())} (len {len(padded)}) expected {counts}")
+        dmp = DecayMode(0.5, pad[0] + pad[1].join(lst) + pad[2]) if lst else None
+        if dmp is not None and dmp.to_dict()["fs"] != sorted(st):
+            return fail(f"DecayMode from the padded string {pad[0] + pad[1].join(lst) + pad[2]!r}: {dmp.to_dict()['fs']}")
         e = DaughtersDict(tuple(lst))
         f = DaughtersDict({**counts, "absent": 0, "negative": -2})
         for name, dd in (("string", a), ("list", b), ("mapping", c), ("tuple", e), ("mapping with zero counts", f)):
